@@ -276,16 +276,16 @@ Qed.
 Definition arr (T i : Z) : list (option R) := parr (rows T hosts) (count T (pre hosts i)).
 Definition arrs (i : Z) : outs3 R := (arr 1 i, arr 2 i, arr 3 i).
 
-Lemma fill_host_step i tr0 p0 :
+Lemma fill_host_step i tr0 :
   0 <= i < len hosts ->
   exists h, nth_error hosts (Z.to_nat i) = Some h /\
   fill_host A R fill (map Some (kcodes hosts)) hosts i (arrs i, counts (pre hosts i), tr0)
   = Ok (arrs (i + 1), counts (pre hosts (i + 1)), tr0 ++ ev_at (pre hosts i) h)
-  /\ pre hosts (i + 1) = pre hosts i ++ [h] /\ p0 = p0.
+  /\ pre hosts (i + 1) = pre hosts i ++ [h].
 Proof.
   intros Hi. destruct (nth_error_hosts i Hi) as [h [Eg En]]. exists h. split; [exact En|].
   assert (Hp : pre hosts (i + 1) = pre hosts i ++ [h]) by (apply pre_succ; [lia|exact En]).
-  split; [|split; [exact Hp|reflexivity]].
+  split; [|exact Hp].
   unfold fill_host.
   assert (Ek : get (map Some (kcodes hosts)) i = Ok (Some (code h))).
   { destruct (get_nth_error (map Some (kcodes hosts)) i) as [x [E1 E2]]; [rewrite len_map, len_kcodes; lia|].
@@ -330,7 +330,7 @@ Proof.
   - exact Hm.
   - unfold P. rewrite blk_same. reflexivity.
   - intros i s Hi Ps. unfold P in Ps. subst s.
-    destruct (fill_host_step i (evs_pre (pre hosts (hs tid)) (blk hosts (hs tid) i)) 0 ltac:(lia)) as [h [En [Es [Hp _]]]].
+    destruct (fill_host_step i (evs_pre (pre hosts (hs tid)) (blk hosts (hs tid) i)) ltac:(lia)) as [h [En [Es Hp]]].
     rewrite Es. eexists. split; [reflexivity|]. unfold P. f_equal.
     rewrite (blk_succ hosts (hs tid) i h) by (try lia; exact En). rewrite evs_pre_snoc.
     rewrite <- pre_split by lia. reflexivity.
@@ -352,7 +352,7 @@ Proof.
     destruct (for_range_inv P lo hi body s) as [s' [E Ps]] end.
   - lia.
   - unfold P. rewrite H0. unfold arrs, arr. rewrite pre_0. cbn [Z.to_nat seqZ seq map].
-    unfold count at 1 3 5. cbn [filter]. rewrite len_nil, !parr_0, !length_rows. reflexivity.
+    assert (C0 : forall T, count T [] = 0) by reflexivity. rewrite !C0, !parr_0, !length_rows. reflexivity.
   - intros tid s Ht Ps. unfold P in Ps. subst s.
     rewrite get_gstart by lia. rewrite (get_hsv _ _ _ tid G) by lia. rewrite (get_hsv _ _ _ (tid + 1) G) by lia.
     cbn [bind]. fold hs. rewrite (pass2_inner tid Ht). cbn [bind].
@@ -386,8 +386,8 @@ Qed.
 
 Lemma concat_traces : concat traces_spec = evs_pre [] hosts.
 Proof.
-  unfold traces_spec. rewrite concat_traces_upto by lia.
   pose proof G as [N1 [HL [H0 [HH Hm]]]]. fold hs in HH.
+  unfold traces_spec. rewrite concat_traces_upto by lia.
   replace (Z.of_nat (Z.to_nat Nthread)) with Nthread by lia. rewrite HH, pre_all. reflexivity.
 Qed.
 
@@ -402,9 +402,11 @@ Lemma evs_proj T p l : 1 <= T <= 3 ->
   combine (seqZ (count T p) (Z.to_nat (count T l))) (rows T l).
 Proof.
   intros HT. revert p; induction l as [|h t IH]; intros p; [reflexivity|].
-  cbn [evs_pre]. rewrite filter_app, map_app, IH. unfold ev_at.
-  replace (h :: t) with ([h] ++ t) by reflexivity. rewrite count_app, rows_app, count_one, count_snoc.
-  unfold rows at 2. cbn [filter]. unfold isT at 2.
+  cbn [evs_pre]. rewrite filter_app, map_app, IH. unfold ev_at. rewrite count_snoc.
+  replace (h :: t) with ([h] ++ t) by reflexivity. rewrite count_app, rows_app, count_one.
+  assert (Er : rows T [h] = if code h =? T then [fill T h] else []).
+  { unfold rows, isT. cbn [filter]. destruct (code h =? T); reflexivity. }
+  rewrite Er.
   destruct (code h =? T) eqn:E.
   - apply Z.eqb_eq in E. assert (E13 : in13 (code h) = true) by (unfold in13; rewrite E; lia).
     rewrite E13. cbn [filter]. unfold ev_is at 1. cbn [fst snd]. rewrite E, Z.eqb_refl. cbn [map app].
@@ -440,21 +442,29 @@ Proof. revert b; induction a as [|x a IH]; intros [|y b] H; cbn in *; try lia; t
 Lemma evs_rows_index T l : 1 <= T <= 3 ->
   map (fun e => snd (fst e)) (filter (ev_is T) (evs_pre [] l)) = seqZ 0 (Z.to_nat (count T l)).
 Proof.
-  intros HT. pose proof (evs_proj T [] l HT) as E.
-  apply (f_equal (map fst)) in E. rewrite map_map in E. cbn [fst] in E. rewrite E.
-  apply map_fst_combine. unfold seqZ. rewrite map_length, seq_length, length_rows. reflexivity.
+  intros HT.
+  transitivity (map fst (combine (seqZ (count T []) (Z.to_nat (count T l))) (rows T l))).
+  - rewrite <- (evs_proj T [] l HT). rewrite map_map. apply map_ext. reflexivity.
+  - apply map_fst_combine. unfold seqZ. rewrite map_length, seq_length, length_rows. reflexivity.
 Qed.
 
 Lemma evs_rows_value T l : 1 <= T <= 3 ->
   map snd (filter (ev_is T) (evs_pre [] l)) = rows T l.
 Proof.
-  intros HT. pose proof (evs_proj T [] l HT) as E.
-  apply (f_equal (map snd)) in E. rewrite map_map in E. cbn [snd] in E. rewrite E.
-  apply map_snd_combine. unfold seqZ. rewrite map_length, seq_length, length_rows. reflexivity.
+  intros HT.
+  transitivity (map snd (combine (seqZ (count T []) (Z.to_nat (count T l))) (rows T l))).
+  - rewrite <- (evs_proj T [] l HT). rewrite map_map. apply map_ext. reflexivity.
+  - apply map_snd_combine. unfold seqZ. rewrite map_length, seq_length, length_rows. reflexivity.
 Qed.
 
 Lemma filter_map_comm {X Y} (f : X -> Y) (p : Y -> bool) l : filter p (map f l) = map f (filter (fun x => p (f x)) l).
 Proof. induction l as [|a l IH]; cbn; [reflexivity|]. destruct (p (f a)); cbn; rewrite IH; reflexivity. Qed.
+
+Lemma filter_none {X} (p : X -> bool) l : (forall x, In x l -> p x = false) -> filter p l = [].
+Proof.
+  induction l as [|a l IH]; intros H; [reflexivity|]. cbn [filter]. rewrite (H a) by (left; reflexivity).
+  apply IH. intros x Hx. apply H. right. exact Hx.
+Qed.
 
 Lemma evs_keys_nodup l : NoDup (map ev_key (evs_pre [] l)).
 Proof.
@@ -462,8 +472,49 @@ Proof.
   destruct (in13 T) eqn:E.
   - change (fun x : event R => fst (fst x) =? T) with (ev_is T).
     rewrite evs_rows_index by (apply in13_cases in E; lia). apply NoDup_seqZ.
-  - replace (filter (fun x : event R => fst (fst x) =? T) (evs_pre [] l)) with (@nil (event R)); [constructor|].
-    symmetry. apply (proj2 (List.Forall_forall _ _)) with (P := fun x => (fst (fst x) =? T) = false) in E.
-Abort.
+  - rewrite filter_none; [constructor|]. intros x Hx. apply evs_codes in Hx.
+    apply Z.eqb_neq. intros Heq. rewrite Heq in Hx. congruence.
+Qed.
+
+Lemma evs_keys_cover l T j :
+  In (T, j) (map ev_key (evs_pre [] l)) <-> 1 <= T <= 3 /\ 0 <= j < count T l.
+Proof.
+  split.
+  - intros H. apply in_map_iff in H. destruct H as [e [Ek He]]. unfold ev_key in Ek.
+    pose proof (f_equal fst Ek) as E1. pose proof (f_equal snd Ek) as E2. cbn [fst snd] in E1, E2.
+    pose proof (evs_codes _ _ _ He) as Hc. rewrite E1 in Hc. apply in13_cases in Hc.
+    assert (HT : 1 <= T <= 3) by lia. split; [exact HT|].
+    assert (Hin : In j (map (fun e : event R => snd (fst e)) (filter (ev_is T) (evs_pre [] l)))).
+    { apply in_map_iff. exists e. split; [exact E2|]. apply filter_In. split; [exact He|].
+      unfold ev_is. rewrite E1. apply Z.eqb_refl. }
+    rewrite evs_rows_index in Hin by exact HT. apply in_seqZ in Hin. pose proof (count_nonneg T l). lia.
+  - intros [HT Hj].
+    assert (Hin : In j (seqZ 0 (Z.to_nat (count T l)))) by (apply in_seqZ; lia).
+    rewrite <- evs_rows_index in Hin by exact HT. apply in_map_iff in Hin. destruct Hin as [e [Ej He]].
+    apply filter_In in He. destruct He as [He Hc]. unfold ev_is in Hc. apply Z.eqb_eq in Hc.
+    apply in_map_iff. exists e. split; [|exact He]. unfold ev_key. rewrite Hc, Ej. reflexivity.
+Qed.
+
+Lemma in_combine_seqZ {X} (L : list X) lo n j v :
+  In (j, v) (combine (seqZ lo n) L) -> lo <= j /\ nth_error L (Z.to_nat (j - lo)) = Some v.
+Proof.
+  revert lo L; induction n as [|n IH]; intros lo L H; [destruct H|].
+  rewrite seqZ_cons in H. destruct L as [|x L]; [destruct H|]. cbn [combine] in H. destruct H as [H|H].
+  - inversion H; subst. rewrite Z.sub_diag. split; [lia|reflexivity].
+  - apply IH in H. destruct H as [H1 H2]. split; [lia|].
+    replace (Z.to_nat (j - lo)) with (S (Z.to_nat (j - (lo + 1)))) by lia. exact H2.
+Qed.
+
+(* an event carries the row that the filter puts at its index *)
+Lemma evs_value l T j v : In (T, j, v) (evs_pre [] l) -> nth_error (rows T l) (Z.to_nat j) = Some v.
+Proof.
+  intros H. pose proof (evs_codes _ _ _ H) as Hc. cbn [fst] in Hc. apply in13_cases in Hc.
+  assert (HT : 1 <= T <= 3) by lia.
+  assert (Hin : In (j, v) (map (fun e => (snd (fst e), snd e)) (filter (ev_is T) (evs_pre [] l)))).
+  { apply in_map_iff. exists (T, j, v). split; [reflexivity|]. apply filter_In. split; [exact H|].
+    unfold ev_is. cbn [fst]. apply Z.eqb_refl. }
+  rewrite (evs_proj T [] l HT) in Hin. apply in_combine_seqZ in Hin. destruct Hin as [_ Hn].
+  change (count T []) with 0 in Hn. rewrite Z.sub_0_r in Hn. exact Hn.
+Qed.
 
 End TwoPassProofs.
